@@ -379,7 +379,7 @@ StepLive(st0, env, fr, it) ==
   CASE it.k \in {"tok", "kept"} -> Advance(EmitItem(st, it))
     [] it.k = "str"      -> StepStr(st, fr, it)
     [] it.k = "cmt"      -> IF env.strip THEN Advance(StripCmt(st, it))
-                            ELSE Advance([st EXCEPT !.out = EmitCmt(@, it.n, IF fr.kind = "file" THEN Tag("copy", fr.file, it.off) ELSE fr.org)])
+                            ELSE Advance([st EXCEPT !.out = EmitCmt(@, IF it.ts # <<>> THEN it.ts[1] ELSE it.n, IF fr.kind = "file" THEN Tag("copy", fr.file, it.off) ELSE fr.org)])
     [] it.k \in {"nl", "gap"} -> Advance(Unglue(st))
     [] it.k = "def"      -> StepDefine(st, fr, it)
     [] it.k = "undef"    -> Advance(EmitItem([st EXCEPT !.defs = DefDel(@, it.n)], it))
